@@ -86,8 +86,56 @@ fn family<const D: usize>(id: &str, rng: &mut Rng, out: &mut Out) {
     emit::<D>(&format!("{id}_scale"), &format!("scale:{}", hx(k)), &sc, out);
 }
 
+/// exactly degenerate simplices at larger coordinate magnitudes: D random integer points with
+/// coordinates up to +-r and one more that is an integer affine combination of them (so the
+/// (D+1) points span at most a hyperplane), listed in a random order.  Absolute pivot / determinant
+/// thresholds stop seeing the degeneracy once the rounding noise of the elimination exceeds them.
+fn degenerate_wide<const D: usize>(id: &str, rng: &mut Rng, out: &mut Out, r: i64) {
+    let pts = gens::random_grid(rng, D, D, r);
+    if pts.len() != D { return; }
+    let mut w: Vec<i64> = (0..D).map(|_| rng.range(-3, 3)).collect();
+    let s: i64 = w.iter().sum();
+    w[0] += 1 - s; // integer weights summing to 1
+    let last: Vec<i64> = (0..D).map(|j| (0..D).map(|i| w[i] * pts[i][j]).sum()).collect();
+    let mut all = pts.clone();
+    all.push(last);
+    rng.shuffle(&mut all);
+    let f = gens::to_f(&all, 1.0, 0.0);
+    emit::<D>(id, &format!("base:degenerate_wide{r}"), &f, out);
+}
+
+/// a simplex one of whose FACETS is exactly degenerate: D-1 random integer points, an integer
+/// affine combination of them, and one more random point
+fn degenerate_facet<const D: usize>(id: &str, rng: &mut Rng, out: &mut Out, r: i64) {
+    if D < 3 { return; }
+    let pts = gens::random_grid(rng, D, D, r);
+    if pts.len() != D { return; }
+    let k = D - 1;
+    let mut w: Vec<i64> = (0..k).map(|_| rng.range(-3, 3)).collect();
+    let s: i64 = w.iter().sum();
+    w[0] += 1 - s;
+    let comb: Vec<i64> = (0..D).map(|j| (0..k).map(|i| w[i] * pts[i][j]).sum()).collect();
+    let mut all: Vec<Vec<i64>> = pts[..k].to_vec();
+    all.push(comb);
+    all.push(pts[k].clone());
+    rng.shuffle(&mut all);
+    let f = gens::to_f(&all, 1.0, 0.0);
+    emit::<D>(id, &format!("base:degenerate_facet{r}"), &f, out);
+}
+
 pub fn run(cfg: &Cfg, rng: &mut Rng, out: &mut Out) {
     let thorough = cfg.tier == "thorough";
+    for i in 0..(if thorough { 400 } else { 60 }) {
+        let r2 = [10i64, 100, 1000][i % 3];
+        degenerate_facet::<3>(&format!("df3_{i}"), rng, out, r2);
+        degenerate_facet::<4>(&format!("df4_{i}"), rng, out, r2);
+        degenerate_facet::<5>(&format!("df5_{i}"), rng, out, r2);
+        let r = [100i64, 1000, 10000, 50000][i % 4];
+        degenerate_wide::<2>(&format!("dw2_{i}"), rng, out, r);
+        degenerate_wide::<3>(&format!("dw3_{i}"), rng, out, r);
+        degenerate_wide::<4>(&format!("dw4_{i}"), rng, out, r);
+        degenerate_wide::<5>(&format!("dw5_{i}"), rng, out, r);
+    }
     let n = if thorough { 3000 } else { 600 };
     for i in 0..n {
         let id = format!("g{i}");
